@@ -46,7 +46,8 @@ while i < len(args):
     out.append(a); i += 1
 extra = ['-I$OUT/include', '-L$OUT/lib', '-Wno-override-module']
 if '-c' not in args and '-E' not in args and '-S' not in args:
-    extra += ['-Wl,-rpath,$OUT/lib']
+    # libuv is a stub here: programs that never start an event loop still link
+    extra += ['-Wl,-rpath,$OUT/lib', '-Wl,--unresolved-symbols=ignore-all']
 if has_ll:
     extra += ['-mllvm', '-opaque-pointers']
 os.execv('$LLVMBIN/$t', ['$t'] + extra + out)
@@ -74,9 +75,25 @@ int unw_get_proc_name(unw_cursor_t *, char *, size_t, unw_word_t *);
 #endif
 EOF
 rm -f "$OUT/include/uv.h"; cat > "$OUT/include/uv.h" <<'EOF'
-/* stub uv.h */
+/* stub uv.h: just enough for runtime/internal/clite/libuv/_wrap/libuv.c to
+ * compile (no libuv-dev in this sandbox); sizes are generous upper bounds */
 #ifndef VERIF_UV_H
 #define VERIF_UV_H
+#include <stdint.h>
+#include <stddef.h>
+typedef struct uv_loop_s { char opaque[1024]; } uv_loop_t;
+typedef struct uv_async_s { char opaque[256]; } uv_async_t;
+typedef struct uv_timer_s { char opaque[256]; } uv_timer_t;
+typedef struct uv_signal_s { char opaque[256]; } uv_signal_t;
+typedef struct uv__io_s { void *cb; void *pq[2]; void *wq[2]; unsigned pevents, events; int fd; } uv__io_t;
+typedef struct uv_tcp_s { char opaque[136]; uv__io_t io_watcher; char more[128]; } uv_tcp_t;
+typedef void (*uv_async_cb)(uv_async_t *);
+typedef void (*uv_timer_cb)(uv_timer_t *);
+typedef void (*uv_signal_cb)(uv_signal_t *, int);
+int uv_async_init(uv_loop_t *, uv_async_t *, uv_async_cb);
+int uv_timer_start(uv_timer_t *, uv_timer_cb, uint64_t, uint64_t);
+int uv_signal_start(uv_signal_t *, uv_signal_cb, int);
+int uv_signal_start_oneshot(uv_signal_t *, uv_signal_cb, int);
 #endif
 EOF
 # link-time names for runtime libraries that exist only as .so.N here
